@@ -739,7 +739,7 @@ class Context:
         _base_hash_on_config.update(
             {
                 data_type: (plugin.version(), plugin.compressor, plugin.input_timeout)
-                for data_type, plugin in self._plugin_class_registry.items()
+                for data_type, plugin in list(self._plugin_class_registry.items())
                 if not data_type.startswith(TEMP_DATA_TYPE_PREFIX)
             }
         )
@@ -787,7 +787,8 @@ class Context:
         """
         requested_plugins = {}
         cached_plugins = self._fixed_plugin_cache[self._context_hash()]  # type: ignore
-        for target, plugin in cached_plugins.items():
+        # Iterate over a snapshot: other threads (multi_run) may add to the cache
+        for target, plugin in list(cached_plugins.items()):
             if target in requested_plugins:
                 # If e.g. target is already seen because the plugin is
                 # multi output
@@ -1688,6 +1689,10 @@ class Context:
                 if is_superrun:
                     # In case the checking about allow_superrun shows error
                     p.allow_superrun = True
+                # Register the temporary plugin in a private copy of this
+                # context: other threads (multi_run) may be using this one
+                # noinspection PyMethodFirstArgAssignment
+                self = self.new_context(processors=self.processors)
                 self.register(p)
                 targets = (temp_name,)
             elif not allow_multiple or processor is strax.SingleThreadProcessor:
